@@ -655,7 +655,7 @@ func (fr *frame) strIndex(s, idx value) value {
 	fr.boundsCheck(idx, n, "index")
 	switch s := s.(type) {
 	case string:
-		i := fr.concretizeInt(idx).(int)
+		i := asInt64orU(fr.concretizeInt(idx))
 		return s[i]
 	case symStrB:
 		i := asInt64(fr.concretizeInt(idx))
